@@ -77,7 +77,33 @@ func ProcessQueryParams(
 
 // convertValue converts a string value to the specified type
 func convertValue(value string, targetType Type) (interface{}, error) {
-	switch targetType.(type) {
+	switch t := targetType.(type) {
+	case OptionalType:
+		// `page: int?` is an int when it is given: without this arm the raw
+		// string went through unparsed and unchecked (?page=abc ran the body)
+		return convertValue(value, t.InnerType)
+	case UnionType:
+		// the first member the text converts to; plain strings come last so
+		// that `int | str` reads 5 as a number
+		if len(t.Types) == 0 {
+			return value, nil
+		}
+		var firstErr error
+		for pass := 0; pass < 2; pass++ {
+			for _, member := range t.Types {
+				if _, isString := member.(StringType); isString != (pass == 1) {
+					continue
+				}
+				converted, err := convertValue(value, member)
+				if err == nil {
+					return converted, nil
+				}
+				if firstErr == nil {
+					firstErr = err
+				}
+			}
+		}
+		return nil, firstErr
 	case IntType:
 		i, err := strconv.ParseInt(value, 10, 64)
 		if err != nil {
